@@ -147,6 +147,10 @@ class _BrokenStdin(io.TextIOBase):
         return False
 
 
+class _NamedBytes(io.BytesIO):
+    name = "<stdin>"
+
+
 def decode(data):
     """what a text-mode reader (utf-8) makes of the bytes: ("text", str) or ("undecodable", None)"""
     try:
@@ -236,7 +240,8 @@ def make_stdin(spec):
     translation); ("broken", None) a stream whose read raises OSError.  Returns (stream, content, universal, name)"""
     kind, payload = spec
     if kind == "bytes":
-        return (io.TextIOWrapper(io.BytesIO(payload), encoding="utf-8", newline=None), decode(payload), True, "<unknown>")
+        # like the standard input of a process: a translating text layer over a byte stream called '<stdin>'
+        return (io.TextIOWrapper(_NamedBytes(payload), encoding="utf-8", newline=None), decode(payload), True, "<stdin>")
     if kind == "string":
         return io.StringIO(payload), ("text", payload), False, "<unknown>"
     return _BrokenStdin(), ("unreadable", None), True, "<unknown>"
@@ -264,6 +269,8 @@ def run_tool(tool, argv, files, stdin_spec, record=False):
         sys.stdin, sys.stdout, sys.stderr = stream, out, err
         rec = Recorder() if record else None
         import argparse
+        import signal
+        old_sig = signal.getsignal(signal.SIGINT)       # main() installs its own handler
         old_sub = argparse._SubParsersAction.__call__
 
         def sub_call(self, parser, namespace, values, option_string=None):
@@ -286,6 +293,10 @@ def run_tool(tool, argv, files, stdin_spec, record=False):
                 obs["exc"] = type(e).__name__
         finally:
             argparse._SubParsersAction.__call__ = old_sub
+            try:
+                signal.signal(signal.SIGINT, old_sig)
+            except (ValueError, TypeError):
+                pass
             if rec:
                 rec.__exit__(None, None, None)
                 obs["draws"] = list(rec.draws)
@@ -651,7 +662,7 @@ def build_run(suite, info):
     c.stateless = True
     box.append(c)
     content = decode(stdin_spec[1]) if sk == "bytes" else (("text", sp) if sk == "string" else ("unreadable", None))
-    envp = enc_env(content, sk != "string", "<unknown>", [], [])
+    envp = enc_env(content, sk != "string", "<stdin>" if sk == "bytes" else "<unknown>", [], [])
     c.req = req("tshuffle", envp, enc_argv(argv), [0]) if tool == "cnfshuffle" else req("tk2p", envp, enc_argv(argv))
     return c
 
